@@ -531,3 +531,59 @@ c.ens("result-stored-raw-released", lambda self, trace: And(self.rawdata is None
 c.ens("predictor-parameters-with-ISO-defaults", lambda self, trace: all(
     (eq(b["colors"], self._parms["Colors"]) and eq(b["columns"], self._parms["Columns"])
      and eq(b["bitspercomponent"], self._parms.get("BitsPerComponent", 8))) for nm, b in trace if nm.startswith("apply_")))
+
+
+# -- the whole function on a small concrete geometry: the row tags alone choose the filter, for every Predictor value 10..15 ---------------------------
+class _TwoRows(T.Sort):
+    """2 rows x (tag + 2 bytes): tags chosen from 0..4, sample bytes symbolic"""
+    def fresh(self, ctx, name):
+        t1 = ctx.choose([0, 1, 2, 3, 4], "tag-row-1")
+        t2 = ctx.choose([0, 1, 2, 3, 4], "tag-row-2")
+        bs = [ctx.fresh_int("%s.b%d" % (name, k)) for k in range(4)]
+        for b in bs:
+            ctx.assume(z3.And(b >= 0, b < 256))
+        vals = [t1, bs[0], bs[1], t2, bs[2], bs[3]]
+        d = SBytes(6, lambda k, vals=vals: (vals[k] if isinstance(k, int) else _sel(vals, k)), (0, 256), "bytes")
+        d._vals = vals
+        return d
+    def sample(self, rng):
+        return None
+    def from_model(self, ev, v):
+        return bytes(int(ev(x)) if not isinstance(x, int) else x for x in v._vals).hex()
+
+
+def _sel(vals, k):
+    r = vals[-1]
+    for i in range(len(vals) - 2, -1, -1):
+        r = If(eq(k, i), vals[i], r)
+    return r
+
+
+c = contract("pdfminer.utils:apply_png_predictor#two-rows", props=["C03"])
+c.modname, c.qualname = "pdfminer.utils", "apply_png_predictor"
+c.param("pred", T.OneOf(10, 11, 12, 13, 14, 15)).param("colors", T.Const(1)).param("columns", T.Const(2)).param("bitspercomponent", T.Const(8)).param("data", _TwoRows())
+c.skip_cross = True
+c.max_paths = 400
+c.returns(T.Opaque("bytes"))
+
+
+def _two_rows_spec(data, result):
+    v = data._vals
+    zero = [0, 0]
+    def unf(tag, enc, above):
+        raw = []
+        for j in range(2):
+            a = raw[j - 1] if j >= 1 else 0
+            cc = above[j - 1] if j >= 1 else 0
+            raw.append(PNG.unfilter_byte(enc[j], tag, a, above[j], cc))
+        return raw
+    r1 = unf(v[0], [v[1], v[2]], zero)
+    r2 = unf(v[3], [v[4], v[5]], r1)
+    want = r1 + r2
+    from pyvc.summaries import as_sbytes
+    got = as_sbytes(result) if not isinstance(result, (bytes, bytearray)) else result
+    n = got.n if hasattr(got, "n") else len(got)
+    return And(eq(n, 4), *[eq(at(got, k), want[k]) for k in range(4)])
+
+
+c.ens("rows-are-unfiltered-by-their-own-tags-whatever-the-predictor-value", lambda data, result: _two_rows_spec(data, result))
